@@ -14,11 +14,11 @@ import traceback
 def main(argv=None):
     parser = argparse.ArgumentParser()
     parser.add_argument("prop")
-    parser.add_argument("--tier", default=os.environ.get("VERIF_TIER") or "quick", choices=["quick", "thorough"])
+    parser.add_argument("--tier", default=None, choices=["quick", "thorough"])
     parser.add_argument("--replay", default=None)
     args = parser.parse_args(argv)
-    if os.environ.get("VERIF_TIER") in ("quick", "thorough"):
-        args.tier = os.environ["VERIF_TIER"]
+    if args.tier is None:        # the flag given in the registered commands decides; VERIF_TIER only fills in when it is absent
+        args.tier = os.environ["VERIF_TIER"] if os.environ.get("VERIF_TIER") in ("quick", "thorough") else "quick"
     seed = int(os.environ.get("VERIF_SEED", "1") or 1)
     from harness import common, props
     try:
